@@ -278,7 +278,8 @@ where
                         let loc_d_start = loc_d.1 + 1;
                         let loc_d_end = loc_d_start + (3 * (*data_len as usize)) - 1;
                         let data = if *data_len > 0 && loc_d_end < line.len() {
-                            hex_to_bytes(&line.as_str()[loc_d_start..loc_d_end])
+                            // checked slice: the offsets are no char boundaries if the line contains non ascii chars
+                            line.get(loc_d_start..loc_d_end).and_then(hex_to_bytes)
                         } else {
                             None
                         };
@@ -366,7 +367,8 @@ where
                         let loc_d_start = loc_d.1 + 1;
                         let loc_d_end = loc_d_start + (3 * (*data_len as usize)) - 1;
                         let data = if *data_len > 0 && loc_d_end < line.len() {
-                            hex_to_bytes(&line.as_str()[loc_d_start..loc_d_end])
+                            // checked slice: the offsets are no char boundaries if the line contains non ascii chars
+                            line.get(loc_d_start..loc_d_end).and_then(hex_to_bytes)
                         } else {
                             None
                         };
